@@ -1155,6 +1155,7 @@ def evaluate(ctx, hist, res, with_model=True):
             # which links were handled is read off the folders (the order of glob is unspecified)
             moved = sorted(names(tr.last["jobs"]) - names(obs["jobs"])) if obs else []
             add({"op": "killedEntering", "p": p, "moved": [lid(m) for m in moved]}, obs)
+            ctx.count("death_in_enter_moved_of_links", f"{len(moved)}/{len(tr.last['jobs'])}")
             if obs is not None:
                 nb = names(tr.last["jobs"]) | names(tr.last["bak"])
                 if not nb <= names(obs["jobs"]) | names(obs["bak"]):
@@ -1185,6 +1186,7 @@ def evaluate(ctx, hist, res, with_model=True):
                 if r == "died-exiting" and obs is not None and obs["bak"] is not None:
                     removed = sorted(names(tr.last["bak"]) - names(obs["bak"]))
                     add({"op": "killedExiting", "p": p, "removed": [lid(m) for m in removed]}, obs)
+                    ctx.count("death_in_exit_removed_of_links", f"{len(removed)}/{len(tr.last['bak'] or [])}")
                 else:
                     add({"op": "exitOk", "p": p}, obs)
                 if obs is not None:
